@@ -79,6 +79,9 @@ class MedianStopper(Stopper):
         num_competing = len(competing_objectives)
 
         if num_competing < self._min_competing:
+            # Not enough competitors to prune at this decision point: move on to the
+            # next rung so that values observed at different budgets are never mixed.
+            self._rung += 1
             return False
 
         median_objective = np.median(competing_objectives)
